@@ -683,13 +683,14 @@ if __name__ == "__main__":
     odest = os.path.join(os.path.dirname(dest), "OverwriteGen.lean")
     if not os.path.exists(odest) or open(odest).read() != otext:
         open(odest, "w").write(otext); changed = True
-    import t7, t8, t9, t10, t11, t12, t13, t14, t15, t16, t17
+    import t7, t8, t9, t10, t11, t12, t13, t14, t15, t16, t17, t18, t19
     more_done, more_failed = [], []
     for text_done_failed, fname in ((t7.run_eq(root), "T7Gen.lean"), (t8.run_t8(root, done + sdone), "T8Gen.lean"),
                                     (t9.run_t9(root), "T9Gen.lean"), (t10.run_t10(root), "T10Gen.lean"),
                                     (t11.run_t11(root), "T11Gen.lean"), (t12.run_t12(root, run.tables), "T12Gen.lean"),
                                     (t13.run_t13(root, done + sdone), "T13Gen.lean"), (t14.run_t14(root), "T14Gen.lean"),
-                                    (t15.run_t15(root), "T15Gen.lean"), (t16.run_t16(root, run.tables), "T16Gen.lean"), (t17.run_t17(root), "T17Gen.lean")):
+                                    (t15.run_t15(root), "T15Gen.lean"), (t16.run_t16(root, run.tables), "T16Gen.lean"), (t17.run_t17(root), "T17Gen.lean"),
+                                    (t18.run_t18(root), "T18Gen.lean"), (t19.run_t19(root), "T19Gen.lean")):
         xtext, xdone, xfailed = text_done_failed
         xdest = os.path.join(os.path.dirname(dest), fname)
         if not os.path.exists(xdest) or open(xdest).read() != xtext:
